@@ -4,7 +4,7 @@ from symx.api import *
 
 PROPERTY = 'C12'
 LEVEL = 'model_checking'
-FILES = ['mesonbuild/mtest.py']
+FILES = ['mesonbuild/mtest.py', 'mesonbuild/build.py']
 ENCODED = ['mtest.TestHarness._run_tests (the real coroutine with its asyncio.Semaphore, futures deque, complete/complete_all, done callbacks, cancel_all_tests)',
            'TestHarness.process_test_result/is_bad_result/total_failure_count', 'TestRunExitCode.complete', 'TestRun._complete/complete_skip',
            'TestResult.is_ok/is_bad', 'SingleTestRunner.__init__ (time limit from test timeout x --timeout-multiplier, is_parallel)', 'TestSubprocess.wait / complete_all / TestSubprocess._kill (virtual clock, stub process, os.killpg recorded)', 'TestHarness.doit (job-count clamp, runner creation; rebuild and run_tests stubbed)', 'mtest.test_slice', 'TestHarness.get_tests/test_suitable/test_in_suites/split_suite_string']
